@@ -147,7 +147,7 @@ def print_assumptions(module, names, run_dir):
         if b.startswith('Closed'):
             res[n] = []
         else:
-            res[n] = sorted(set(re.findall(r'^([A-Za-z_][A-Za-z0-9_.\']*)\s*:', b, re.M)))
+            res[n] = sorted(set(re.findall(r'^([A-Za-z_][A-Za-z0-9_.\']*)\s*:', b, re.M)) - {'Axioms'})
     return res, out
 
 
